@@ -342,7 +342,9 @@ fn run_e1(rep: &Report) -> i32 {
             "C04" => (all.to_vec(), vec![Explore::Joint { anchored: false }, Explore::Joint { anchored: true }]),
             "C09" => (all.to_vec(), vec![Explore::Find { anchored: true, earliest: false }, Explore::Walk { anchored: true }]),
             "C11" => (all.to_vec(), vec![Explore::Find { anchored: false, earliest: false }, Explore::Walk { anchored: false }, Explore::Find { anchored: true, earliest: false }]),
-            "C14" => (all.to_vec(), vec![Explore::Find { anchored: false, earliest: true }, Explore::Find { anchored: true, earliest: true }]),
+            // the normal search is part of the statement too ("is_match iff
+            // find returns a match iff a pattern occurs")
+            "C14" => (all.to_vec(), vec![Explore::Find { anchored: false, earliest: true }, Explore::Find { anchored: true, earliest: true }, Explore::Find { anchored: false, earliest: false }]),
             "C16" => (if t { all.to_vec() } else { vec![Kind::Std, Kind::LF] }, vec![Explore::Contract]),
             "C19" => (vec![Kind::Std, Kind::LF], vec![Explore::Work]),
             _ => (vec![], vec![]),
@@ -386,6 +388,11 @@ fn run_e1(rep: &Report) -> i32 {
         }
     }
     rep.count("phase_deep_ms", t_deep.elapsed().as_millis() as u64);
+    if rep.property == "C19" {
+        // stream searches: the same schedule exploration as C07, judging only
+        // the work counters (positions never go backwards across rolls)
+        crate::e2::run(rep, crate::e2::Mode::Work);
+    }
     let states = rep.get("states");
     let transitions = rep.get("transitions");
     let cov = J::obj()
